@@ -2538,6 +2538,10 @@ class Interp:
     def call_body(self, st, body, args, dty, ret_k, site, callee=None, force=False):
         depth = len(st.frames)
         path = body["path"]
+        if self.opts.get("len_sim"):
+            r = self.len_sim_call(st, body, args, dty, ret_k, site)
+            if r is not None:
+                return r
         uf = self.opts.get("uf_calls")
         if uf and path in uf:
             # comparison runs: a callee shared by both siblings is an uninterpreted function of its (slice) arguments -
@@ -2548,6 +2552,15 @@ class Interp:
                     ks.append((a.origin, a.off.key(), a.len.key()))
                 elif isinstance(a, VInt):
                     ks.append(a.lin.key())
+                elif isinstance(a, VAdt) and a.fields is not None and len(a.fields) == 1 and isinstance(a.fields[0], VInt):
+                    ks.append((a.path, a.fields[0].lin.key()))  # integer newtype (IpNumber, EtherType)
+                elif isinstance(a, VRef):
+                    tv = self.load(st, ("place", a.fid, a.local, a.projs))
+                    if isinstance(tv, VAdt) and tv.key is not None:
+                        ks.append((tv.path, tv.key))  # an unmodified materialised value: identified by its key
+                    else:
+                        ks = None
+                        break
                 else:
                     ks = None
                     break
@@ -2570,6 +2583,60 @@ class Interp:
             self.flush_dirty(st, st.frames[-1])
         self.new_frame(st, body, args, ret_k, site)
         return [st]
+
+    def len_sim_call(self, st, body, args, dty, ret_k, site):
+        """size comparison runs: serialisers are replaced by their *length* (lemmas proved elsewhere: to_bytes() emits
+        header_len() bytes - C08 len; write_internal() hands out header_len() bytes on Ok - C12 announce)"""
+        path = body["path"]
+        base, _, name = path.rpartition("::")
+        if name == "to_bytes" and body["arg_count"] == 1:
+            hl = self.F.bodies.get(base + "::header_len") or self.F.bodies.get(base + "::packet_len")
+            rty = dty if dty is not None else body["locals"][0][0]
+            if hl is None or hl["arg_count"] != 1:
+                return ret_k(st, self.materialize(st, rty, ("lsim", fresh_id())))
+
+            def k(s2, n):
+                v = self.materialize(s2, rty, ("lsim", fresh_id()))
+                if isinstance(v, VVec) and isinstance(n, VInt):
+                    v = VVec(v.kind, n.lin, v.cap, v.key, v.elems)
+                return ret_k(s2, v)
+            return self.call_body(st, hl, [args[0]], None, k, site, force=True)
+        if name in ("update_checksum_ipv4", "update_checksum_ipv6"):
+            # only the checksum field changes (irrelevant for sizes); may reject (payload too long for the pseudo header)
+            rty = dty if dty is not None else body["locals"][0][0]
+            outs = []
+            s_ok = st.fork()
+            okv = self.materialize(s_ok, rty, ("lsimc", fresh_id()))
+            if isinstance(okv, VAdt) and okv.variant is None:
+                okv = VAdt(okv.path, 0, (VTuple(()),), None, okv.ty)
+            outs.extend(ret_k(s_ok, okv))
+            ev = self.materialize(st, rty, ("lsimce", fresh_id()))
+            if isinstance(ev, VAdt) and ev.variant is None:
+                ev = VAdt(ev.path, 1, self.variant_fields(st, ev, 1), None, ev.ty)
+            outs.extend(ret_k(st, ev))
+            return outs
+        if name == "write_internal" and base.endswith("Extensions"):
+            hl = self.F.bodies.get(base + "::header_len")
+            if hl is None:
+                return None
+            rty = dty if dty is not None else body["locals"][0][0]
+
+            def k(s2, n):
+                outs = []
+                s_ok = s2.fork()
+                if isinstance(n, VInt):
+                    s_ok.notes["wlen"] = s_ok.notes.get("wlen", Lin.const(0)) + n.lin
+                okv = self.materialize(s_ok, rty, ("lsimw", fresh_id()))
+                if isinstance(okv, VAdt) and okv.variant is None:
+                    okv = VAdt(okv.path, 0, (VTuple(()),), None, okv.ty)
+                outs.extend(ret_k(s_ok, okv))
+                ev = self.materialize(s2, rty, ("lsime", fresh_id()))
+                if isinstance(ev, VAdt) and ev.variant is None:
+                    ev = VAdt(ev.path, 1, self.variant_fields(s2, ev, 1), None, ev.ty)
+                outs.extend(ret_k(s2, ev))
+                return outs
+            return self.call_body(st, hl, [args[0]], None, k, site, force=True)
+        return None
 
     def call_value(self, st, fv, args, dty, ret_k, site):
         """call a closure / fn value with already-evaluated args (closure self first if closure)"""
